@@ -90,11 +90,7 @@ def well_formed(ctx: Ctx, text: str, o: dict, out, err, secs: float, limit: floa
         return
     if not o["plaintext"]:
         if not out.endswith("\n"):
-            # attributed to the empty-item finding only if every non-blank line of the input is nothing but list markers
-            lines = [l for l in re.sub(r"[^\S\n]|\r", " ", text.replace("\x00", "")).split("\n") if l.strip()]
-            empty_item = bool(lines) and all(re.fullmatch(r"[ \t>]*(?:(?:[-*+]|\d{1,9}[.)])[ \t]*)+", l) for l in lines)
-            ctx.fail("ENDS_NL: Markdown-mode result does not end in a newline", case, repr(out[-40:]),
-                     known="C01-empty-list-item" if empty_item else None)
+            ctx.fail("ENDS_NL: Markdown-mode result does not end in a newline", case, repr(out[-40:]))
             return
     bad = [c for c in set(out) if (ord(c) < 32 and c not in "\n\t" or c == "\x7f") and c not in text and not (c == "�")]
     if "\x00" in out and "\x00" not in text:
